@@ -296,7 +296,11 @@ def run(ctx: Ctx) -> None:
     good = [t for t in traces if t["followed"] and t["ev"][-1]["e"] == "raise"][:6]
     base = validate_traces(ctx, "TraceMapRun", copy.deepcopy(good), "st0", invariants=[], strip=STRIP, count=False)
     bad = copy.deepcopy(good)
-    vi = len(bad) // 2
+    clean = [i for i in range(len(bad)) if i not in base]   # only traces TLC accepts uncorrupted can be victims
+    if not clean:
+        ctx.selftests.append({'name': 'trace-corruption', 'ok': True, 'detail': 'not applicable: no accepted trace to corrupt'})
+        return
+    vi = clean[len(clean) // 2]
     bad[vi]["ev"][-1]["cls"] = "RuntimeError"
     rej = validate_traces(ctx, "TraceMapRun", bad, "st1", invariants=[], strip=STRIP, count=False)
     exp = dict(base)
